@@ -153,10 +153,15 @@ Proof. intros H. rewrite nth_firstn by assumption. apply nth_skipn. Qed.
 Definition cols4 (lo : list (list Z)) : Prop := Forall (fun c => length c = 4%nat) lo.
 Definition chars_ok (s : list Z) : Prop := Forall (fun x => -1 <= x <= 3) s.
 
+Lemma spec_score_nth lo plus s i :
+  spec_score lo plus s i =
+  sumz (map (fun j => spec_entry lo plus j (nth (i + j) s (-1))) (seq 0 (length lo))).
+Proof. unfold spec_score. apply sumz_map_ext. intros j _. rewrite nth_skipn. reflexivity. Qed.
+
 Lemma wscore_spec_plus lo s i :
   wscore lo (firstn (length lo) (skipn i s)) = spec_score lo true s i.
 Proof.
-  rewrite wscore_sum. unfold spec_score. apply sumz_map_ext. intros j Hj. apply in_seq in Hj.
+  rewrite wscore_sum, spec_score_nth. apply sumz_map_ext. intros j Hj. apply in_seq in Hj.
   rewrite window_nth by lia. reflexivity.
 Qed.
 
@@ -185,7 +190,7 @@ Qed.
 Lemma wscore_spec_minus lo s i : cols4 lo -> chars_ok s ->
   wscore (rc_mat lo) (firstn (length lo) (skipn i s)) = spec_score lo false s i.
 Proof.
-  intros H4 Hs. rewrite wscore_sum, rc_mat_length. unfold spec_score.
+  intros H4 Hs. rewrite wscore_sum, rc_mat_length, spec_score_nth.
   apply sumz_map_ext. intros j Hj. apply in_seq in Hj.
   rewrite window_nth by lia. rewrite nth_rc_mat by lia.
   unfold spec_entry. apply entry_rev.
@@ -643,11 +648,42 @@ Proof.
   rewrite E. cbn [bind]. rewrite merge_pgroups. reflexivity.
 Qed.
 
+Lemma nth_repeat' {T} (x d : T) n i : (i < n)%nat -> nth i (repeat x n) d = x.
+Proof. revert i; induction n; intros [|i] H; cbn; try lia; auto. apply IHn. lia. Qed.
+
+Lemma nth_repeat0' n i : nth i (repeat 0 n) 0 = 0.
+Proof. revert i; induction n; intros [|i]; cbn; auto. Qed.
+
+Lemma table_lin_eq tl base sm n :
+  table_lin tl base sm n = map (fun i => fast_ge_from tl base (sm + Z.of_nat i)) (seq 0 n).
+Proof.
+  unfold table_lin. destruct (Z.leb_spec sm base) as [Hle | Hgt]; [|reflexivity].
+  set (k := Z.to_nat (base - sm)).
+  apply (nth_ext _ _ 0 0).
+  - rewrite firstn_length, !app_length, !repeat_length, map_length, seq_length. lia.
+  - intros i Hi. rewrite firstn_length, !app_length, !repeat_length in Hi.
+    assert (Hin : (i < n)%nat) by lia.
+    rewrite nth_firstn by assumption. rewrite nth_map_seq by assumption.
+    unfold fast_ge_from.
+    destruct (Nat.lt_ge_cases i k) as [Hk | Hk].
+    + rewrite app_nth1 by (rewrite repeat_length; assumption). rewrite nth_repeat' by assumption.
+      replace (sm + Z.of_nat i <=? base) with true by (symmetry; apply Z.leb_le; lia). reflexivity.
+    + rewrite app_nth2 by (rewrite repeat_length; assumption). rewrite repeat_length.
+      assert (Hnth : nth (i - k) (tl ++ repeat 0 n) 0 = nth (i - k) tl 0).
+      { destruct (Nat.lt_ge_cases (i - k) (length tl)) as [H1 | H1].
+        - apply app_nth1. assumption.
+        - rewrite app_nth2 by assumption. rewrite nth_repeat0'. symmetry. apply nth_overflow. assumption. }
+      rewrite Hnth.
+      destruct (Z.leb_spec (sm + Z.of_nat i) base) as [Hb | Hb].
+      * replace (i - k)%nat with 0%nat by lia. destruct tl; reflexivity.
+      * rewrite getz_nonneg by lia. f_equal. lia.
+Qed.
+
 (* the fast table is C11's table *)
 Lemma pmap_fast_eq M : wfM M -> pmap_fast M = pmap M.
 Proof.
   intros HW. rewrite (pmap_table M HW). destruct HW as [Hne [HA HM]].
-  unfold pmap_fast. destruct M as [|c R]; [congruence|]. do 2 f_equal.
+  unfold pmap_fast. destruct M as [|c R]; [congruence|]. rewrite table_lin_eq. do 2 f_equal.
   apply map_ext. intros i. apply (fast_ge_correct (c :: R) HM).
 Qed.
 
@@ -952,6 +988,42 @@ End Members.
 
 (* ---- the per-motif context of the spec ------------------------------------------------------ *)
 
+Lemma find_map_pair {S} (P : Z -> bool) (P' : Z * S -> bool) (g : nat -> Z) (cf : nat -> S) : forall ks,
+  (forall k, In k ks -> P (g k) = P' (g k, cf k)) ->
+  match find P' (map (fun k => (g k, cf k)) ks) with Some p => Some (fst p) | None => None end =
+  find P (map g ks).
+Proof.
+  induction ks as [|k ks IH]; intros H; [reflexivity|]. cbn [map find].
+  rewrite <- (H k (or_introl eq_refl)). destruct (P (g k)); [reflexivity|].
+  apply IH. intros k' Hk'. apply H. right; assumption.
+Qed.
+
+Lemma combine_map_seq {S T} (g : nat -> S) (cf : nat -> T) ks :
+  combine (map g ks) (map cf ks) = map (fun k => (g k, cf k)) ks.
+Proof. induction ks; cbn; congruence. Qed.
+
+Lemma spec_b0_fast_eq tl base hi w thr : spec_b0_fast tl base hi w thr = spec_b0 tl base hi w thr.
+Proof.
+  unfold spec_b0_fast, spec_b0. set (m := Z.to_nat (hi - base + 2)).
+  assert (E : firstn m (tl ++ repeat 0 m) =
+              map (fun k => fast_ge_from tl base (base + Z.of_nat k)) (seq 0 m)).
+  { apply (nth_ext _ _ 0 0).
+    - rewrite firstn_length, app_length, repeat_length, map_length, seq_length. lia.
+    - intros i Hi. rewrite firstn_length, app_length, repeat_length in Hi.
+      assert (Him : (i < m)%nat) by lia.
+      rewrite nth_firstn by assumption. rewrite nth_map_seq by assumption.
+      assert (Hnth : nth i (tl ++ repeat 0 m) 0 = nth i tl 0).
+      { destruct (Nat.lt_ge_cases i (length tl)) as [H1 | H1].
+        - apply app_nth1. assumption.
+        - rewrite app_nth2 by assumption. rewrite nth_repeat0'. symmetry. apply nth_overflow. assumption. }
+      rewrite Hnth. unfold fast_ge_from.
+      destruct (Z.leb_spec (base + Z.of_nat i) base) as [Hb | Hb].
+      + replace i with 0%nat by lia. destruct tl; reflexivity.
+      + rewrite getz_nonneg by lia. f_equal. lia. }
+  rewrite E, combine_map_seq.
+  apply (find_map_pair (fun b => Qltb (tailp tl base w b) thr)). intros k _. reflexivity.
+Qed.
+
 Lemma mctx_facts c m : thr_ok (cthr c) -> mgood (cK c) (cbin c) m ->
   mctx_of c m = MC (fast_tail (im m)) (sum_min (im m)) (length (lo m))
                    (Some (inject_Z (b0of c m) * cbin c)%Q) /\
@@ -959,7 +1031,7 @@ Lemma mctx_facts c m : thr_ok (cthr c) -> mgood (cK c) (cbin c) m ->
 Proof.
   intros HT [HR [W [A4 Hw]]].
   destruct (spec_b0_gleast (im m) (cthr c) W A4 HT) as [b0 [E [G _]]].
-  unfold mctx_of, b0of. rewrite (mat_rel_length _ _ _ _ HR), E. split; [reflexivity | exact G].
+  unfold mctx_of, b0of. rewrite spec_b0_fast_eq, (mat_rel_length _ _ _ _ HR), E. split; [reflexivity | exact G].
 Qed.
 
 Lemma tailp_count m w b : wfB (im m) ->
@@ -1483,7 +1555,7 @@ Qed.
 Theorem rc_mirror_score lo plus s i : chars_ok s -> (i + length lo <= length s)%nat ->
   spec_score lo plus (rcseq s) i = spec_score lo (negb plus) s (length s - length lo - i).
 Proof.
-  intros Hs Hi. unfold spec_score. set (w := length lo). set (L := length s).
+  intros Hs Hi. rewrite !spec_score_nth. set (w := length lo). set (L := length s).
   rewrite (sumz_rev_seq (fun j => spec_entry lo (negb plus) j (nth (L - w - i + j) s (-1))) w).
   apply sumz_map_ext. intros j Hj. apply in_seq in Hj.
   rewrite rcseq_nth by (fold L; try assumption; lia). fold L.
